@@ -260,26 +260,29 @@ chk("C09", "model_checking",
 EXTRA = {
  "C01": "The flag catalogue holds one keyword in three spellings decoded in one process (a keyword is delivered as written, whatever was decoded before); "
         "string catalogue values are followed by sentinels so that a decoder reading past its value is seen, and after every representation the same decoder "
-        "is asked for the tokens that follow (a decoder left unusable is reported as poisoned).",
+        "is asked for the tokens that follow (a decoder left unusable is reported as poisoned); the mailbox catalogue has names of more than 128 octets of UTF-8.",
  "C03": "The catalogue includes SEARCH results of 2500 and 1000+1501 numbers, LIST data crossed with the (reference, pattern) the command was issued with, "
         "and literal-carrying data in every position.",
  "C04": "Sessions with their own SASL mechanisms are a start configuration; unit AUTH-FINAL (a mechanism that ends with data for the client) must consume the "
         "client's answer; a server that stops answering after an authentication it accepted is reported as out-of-step. Units APPEND-fail / APPEND-panic: a backend "
-        "that refuses or panics before it has read the literal it was handed (the octets still on the wire are message data).",
+        "that refuses or panics before it has read the literal it was handed (the octets still on the wire are message data); units TAG-lit / UID-lit: a literal "
+        "where the command name should be (such a line may end the connection, nothing of the literal may be executed).",
  "C05": "SessionSASL backends (PLAIN, XTEST) are a configuration; AUTHENTICATE with its credentials on the command line or after the continuation request, "
         "accepted, rejected or cancelled, is an action; Authenticate counts as a credential-bearing backend call. Quick replays the transitions of the 32 "
         "core configurations, thorough all of them.",
  "C06": "Transcripts include a LITERAL+ server with literals at and over the limits, credentials the backend rejects nine times in a row through LOGIN and both forms "
         "of AUTHENTICATE, SEARCH keys nested up to 20000 deep (NestMax: beyond the bound the backend is not reached); cut kinds include the peer vanishing "
-        "altogether (gone), before the greeting (doa) and Server.Close.",
+        "altogether (gone), before the greeting (doa) and Server.Close; a third server upgrades its connections (STARTTLS, handshake, transcript inside TLS); when every "
+        "connection of a run has ended the servers' registries of connections must be empty (accessor added to package imapserver with go build -overlay).",
  "C08": "Taking the pending updates and writing them are two steps of the model (held / STALL / RESUME: a NOOP from a client that has stopped reading blocks the "
         "server in its first write; other sessions' updates queue behind what has been taken): generator instances q_slow / t_slow / t_slow3 and stalls in the "
         "random driver. The model's mailbox A is INBOX on the wire and a third party renames INBOX away and back between commands (a no-op for every session).",
- "C09": "STORE flag lists naming a flag twice in different spellings are part of the command alphabet.",
+ "C09": "STORE flag lists naming a flag twice in different spellings are part of the command alphabet; the catalogue has seven messages (one without any header field, "
+        "one multipart without any part); ENVELOPE, BODYSTRUCTURE and BODY ride along with RFC822.SIZE (they must be answered at all: no valid command crashes the connection).",
  "C10": "The client's own read deadline is part of the model: none between responses, armed inside a response and while a literal is consumed; SpecNoClose (a caller "
         "that never closes the client) satisfies StallInsideResponseTimesOut, and every recorded run carries mid (cut inside a response) and self (all calls returned "
         "before the caller's Close), judged by fault = stall /\\ inside => self. Scripts: mail, auth, idlepipe, unsol, stream (incl. a caller that takes its time "
-        "between calls), conc (2 and 3 goroutines), ext (extension commands).",
+        "between calls), conc (2 and 3 goroutines), ext (extension commands), authslow (AUTHENTICATE / APPEND / IDLE over a connection whose writes return late).",
  "C13": "The stress driver also issues LOGIN answered without CAPABILITY code (the client's internal CAPABILITY command competes with the other goroutines) and "
         "APPEND; it selects, expunges and gets unilateral EXISTS / EXPUNGE / FLAGS while other goroutines read the snapshots Client.Mailbox() hands out; "
         "the hook log of a round is taken at quiescence.",
@@ -290,13 +293,16 @@ EXTRA = {
         "logged server panic is reported as command-never-completes/server-panic.",
  "C15": "Every flavour (imapnum.Set, SeqSet, UIDSet; value, pointer) also starts from an empty literal and from make(T, 0); one random text in ten is a long "
         "list (28-51 elements, unsorted, with repetitions).",
- "C16": "Every encode vector also goes through the real call sites (imapwire.Encoder.Mailbox -> wire text -> Decoder.ExpectMailbox).",
+ "C16": "Every encode vector and every long random round trip also goes through the real call sites (imapwire.Encoder.Mailbox -> wire text -> Decoder.ExpectMailbox); "
+        "every third long string is made of runs of one class of character.",
  "C17": "Sessions with their own SASL mechanisms are among the configurations; AUTHENTICATE-X lines in front of and behind the STARTTLS line; on the client side "
-        "capabilities announced in plaintext between the STARTTLS command and its OK are pre-lines (ClientTrustsOnlyTLS).",
+        "capabilities announced in plaintext between the STARTTLS command and its OK, and on that OK itself (exchange line TOKC), are plaintext knowledge "
+        "(ClientTrustsOnlyTLS); nothing a server writes before TLS is active may offer an authentication mechanism when InsecureAuth is off.",
  "C18": "Dimensions stale (capabilities invalidated by LOGIN and not yet re-announced advertise nothing), unauth (UNAUTHENTICATE undoes every ENABLE) and saslir "
-        "(initial response on the command line only with SASL-IR or IMAP4rev2); APPEND written in split writes.",
+        "(initial response on the command line only with SASL-IR or IMAP4rev2); APPEND written in split writes and with a mailbox name that is a literal of its own "
+        "(AnnounceAgain: several synchronising literals in one command); 17 commands carrying caller-supplied strings.",
  "C19": "Operands are built in five time zones with clock times on both sides of midnight (date bounds compare by calendar date); '$' (saved search result) is a UID "
-        "set value that must survive And.",
+        "set value that must survive And; And leaves its operands alone and a result stays what it is when other criteria are derived from the same operands.",
  "C20": "Random vectors include spellings of 'inbox' as first hierarchy component of name and pattern (ordinary characters to the matcher).",
  "C11": "Bases include the short form of an encapsulated message (message/rfc822 with the basic fields only), alone and inside a multipart; every accessor of "
         "every delivered value is called inside recover.",
